@@ -1,6 +1,6 @@
 """BCP socket client."""
 import json
-from urllib.parse import urlsplit, parse_qs, quote, urlunparse
+from urllib.parse import urlsplit, quote, unquote_plus, urlunparse
 
 import asyncio
 
@@ -47,34 +47,42 @@ def decode_command_string(bcp_string) -> Tuple[str, dict]:
         kwargs = json.loads(bcp_command.query[5:])
         return bcp_command.path, kwargs
 
+    kwargs = {}
+    for pair in bcp_command.query.split('&'):
+        if not pair:
+            continue
+        name, _, value = pair.partition('=')
+        name = unquote_plus(name)
+        if name not in kwargs:      # the first one wins (as with parse_qs()[name][0])
+            kwargs[name] = _decode_value(value)
+
+    return bcp_command.path, kwargs
+
+
+def _decode_value(value):
+    """Decode one url-style parameter value.
+
+    Typed values carry a literal tag ('int:5', 'float:2.0', 'bool:True', 'NoneType:'). The ':' of a plain string
+    always arrives percent-encoded ('int%3A5'), so the tag has to be looked for before the value is
+    percent-decoded: a string which merely reads like a typed value stays a string.
+    """
     try:
-        kwargs = parse_qs(bcp_command.query, keep_blank_values=True)
-    except AttributeError:
-        kwargs = dict()
+        if value.startswith('int:'):
+            return int(unquote_plus(value[4:]))
+        if value.startswith('float:'):
+            return float(unquote_plus(value[6:]))
+    except ValueError:
+        # not a number after all: a plain string
+        pass
 
-    for k, v in kwargs.items():
-        if isinstance(v[0], str):
-            try:
-                if v[0].startswith('int:'):
-                    v[0] = int(v[0][4:])
-                    continue
-                if v[0].startswith('float:'):
-                    v[0] = float(v[0][6:])
-                    continue
-            except ValueError:
-                # not a number after all: it is a plain string which merely starts like a typed value
-                pass
+    if value.lower() == 'bool:true':
+        return True
+    if value.lower() == 'bool:false':
+        return False
+    if value == 'NoneType:':
+        return None
 
-            if v[0].lower() == 'bool:true':
-                v[0] = True
-            elif v[0].lower() == 'bool:false':
-                v[0] = False
-            elif v[0] == 'NoneType:':
-                v[0] = None
-            # anything else is a plain string; parse_qs() has already percent-decoded it
-
-    return (bcp_command.path,
-            dict((k, v[0]) for k, v in kwargs.items()))
+    return unquote_plus(value)
 
 
 def encode_command_string(bcp_command, **kwargs) -> str:
